@@ -107,9 +107,12 @@ def _operand_(dom, form, keyspecs, impl, valspecs=None):
     if form == "gen":
         return iter(list(ks))
     if form == "pyset":
-        # iteration order of a python set of small ints/strs under
-        # PYTHONHASHSEED=0 is deterministic
-        return set(ks)
+        # the iteration order of a set of ints does not depend on
+        # PYTHONHASHSEED; for other keys it would, so they come as a dict
+        # key view (another non-list, duplicate-free iterable)
+        if all(type(k) is int for k in ks):
+            return set(ks)
+        return dict.fromkeys(ks).keys()
     if form == "sorted":
         return sorted(ks, key=dom.sortkey)
     if form in ("Set", "TreeSet"):
